@@ -3197,6 +3197,9 @@ func simplify(t Term) Term {
 			_, xn := v.X.(TNil)
 			_, yn := v.Y.(TNil)
 			nonNil := func(t Term) bool {
+				if _, isAddr := t.(TAddr); isAddr {
+					return true // &T{…}, &x: an address is never nil (a typed failure value made on this path)
+				}
 				c, ok := t.(TCall)
 				return ok && c.Fun != nil && (c.Fun.FullName() == "fmt.Errorf" || c.Fun.FullName() == "errors.New")
 			}
